@@ -31,3 +31,39 @@ package crypto
 //@ func crypto.Sign
 //@   requires valid(signer)
 //@   modifies os(signer)
+
+// ---- C12: AES sealing of codes and opaque tokens ----
+// Framing (proved on the code; AES-CFB itself and crypto/rand are trusted): the sealed bytes are a
+// fresh array of 16 + len(plaintext) bytes, the first block is the random IV the encrypting stream
+// is made with, the rest is the stream's output for the plaintext; opening takes the first block as
+// IV and decrypts the rest, refusing anything shorter than one block; both directions make the
+// block cipher from the same key string; the text form is RawURLEncoding base64 in both directions.
+//@ func crypto.EncryptBytesAES
+//@   modifies nothing
+//@   ensures key-used: err == nil ==> bstr(callarg("crypto/aes.NewCipher", 0)) == key
+//@   ensures sealed-length: err == nil ==> len(result0) == 16 + len(plainText) && fresh(result0)
+//@   ensures random-iv-is-first-block: err == nil ==> subslice(callarg("io.ReadFull", 1), result0, 0, 16) && subslice(callarg("crypto/cipher.NewCFBEncrypter", 1), result0, 0, 16)
+//@   ensures body-follows-iv: err == nil ==> subslice(callarg("cipher.Stream.XORKeyStream", 0), result0, 16, len(result0)) && callarg("cipher.Stream.XORKeyStream", 1) == plainText
+//@   ensures encrypting-stream-of-that-cipher: err == nil ==> callarg("crypto/cipher.NewCFBEncrypter", 0) == callres("crypto/aes.NewCipher", 0) && called("crypto/cipher.NewCFBEncrypter")
+//@   ensures fail-nil: err != nil ==> len(result0) == 0
+
+//@ func crypto.DecryptBytesAES
+//@   modifies elems(cipherText)
+//@   ensures key-used: err == nil ==> bstr(callarg("crypto/aes.NewCipher", 0)) == key
+//@   ensures too-short-refused: len(cipherText) < 16 ==> err != nil
+//@   ensures iv-is-first-block: err == nil ==> subslice(callarg("crypto/cipher.NewCFBDecrypter", 1), cipherText, 0, 16)
+//@   ensures body-follows-iv: err == nil ==> subslice(result0, cipherText, 16, len(cipherText))
+//@        && callarg("cipher.Stream.XORKeyStream", 0) == result0 && callarg("cipher.Stream.XORKeyStream", 1) == result0
+//@   ensures decrypting-stream-of-that-cipher: err == nil ==> callarg("crypto/cipher.NewCFBDecrypter", 0) == callres("crypto/aes.NewCipher", 0) && called("crypto/cipher.NewCFBDecrypter")
+
+//@ func crypto.EncryptAES
+//@   modifies nothing
+//@   ensures seals-data-under-key: err == nil ==> bstr(callarg("crypto.EncryptBytesAES", 0)) == data && callarg("crypto.EncryptBytesAES", 1) == key
+//@   ensures text-form: err == nil ==> result0 == b64urlEncode(bstr(callres("crypto.EncryptBytesAES", 0)))
+//@   ensures fail-empty: err != nil ==> result0 == ""
+
+//@ func crypto.DecryptAES
+//@   modifies nothing
+//@   ensures opens-decoded-text-under-key: err == nil ==> bstr(callarg("crypto.DecryptBytesAES", 0)) == b64urlDecode(data) && callarg("crypto.DecryptBytesAES", 1) == key
+//@   ensures plaintext: err == nil ==> result0 == bstr(callres("crypto.DecryptBytesAES", 0))
+//@   ensures fail-empty: err != nil ==> result0 == ""
